@@ -151,3 +151,58 @@ def argument(pkg, call, name, names=None, caller=None):
                 continue
             return "unknown"
     return None
+
+
+# ---------------------------------------------------------------------------------------------------------------------
+# Docstring confirmation of the role contracts (DESIGN 3.1): the parameter roles used by engine B are keyed by the
+# package-wide parameter names; every numpydoc entry that states an explicit order must state THIS order.  A docstring
+# that declares another order is specification drift -> UNDECIDED (exit 2), never a violation of the code.
+import re as _re
+
+_ORDERS = {
+    "region": (_re.compile(r"\b[Ww]\W{1,4}[Ee]\W{1,4}[Ss]\W{1,4}[Nn]\b"), _re.compile(r"\b[WwEeSsNn]\W{1,4}[WwEeSsNn]\W{1,4}[WwEeSsNn]\W{1,4}[WwEeSsNn]\b")),
+    "shape": (_re.compile(r"n_north\w*\s*,\s*n_east"), _re.compile(r"n_east\w*\s*,\s*n_north")),
+    "spacing": (_re.compile(r"s_north\w*\s*,\s*s_east"), _re.compile(r"s_east\w*\s*,\s*s_north")),
+    "pad": (_re.compile(r"pad_north\w*\s*,\s*pad_east"), _re.compile(r"pad_east\w*\s*,\s*pad_north")),
+    "coordinates": (_re.compile(r"easting\W{1,6}northing"), _re.compile(r"northing\W{1,6}easting")),
+    "dims": (_re.compile(r"northing\W[^.]{0,40}easting", _re.S), _re.compile(r"easting\W[^.]{0,40}northing", _re.S)),
+}
+
+
+def numpydoc_params(doc):
+    """{param: text of its entry (type line + description)} of a numpydoc 'Parameters' section"""
+    out = {}
+    lines = doc.splitlines()
+    try:
+        start = next(i for i, ln in enumerate(lines) if ln.strip() == "Parameters")
+    except StopIteration:
+        return out
+    cur = None
+    for ln in lines[start + 2:]:
+        if _re.match(r"^\s*[A-Z][A-Za-z ]+$", ln) and ln.strip() in ("Returns", "Yields", "Examples", "See also", "See Also", "Notes", "References", "Attributes", "Raises", "Warns"):
+            break
+        m = _re.match(r"^(\s*)(\*{0,2}\w+)\s*:\s*(.*)$", ln)
+        if m and len(m.group(1)) <= 8 and not ln.strip().startswith(">>>"):
+            cur = m.group(2).lstrip("*")
+            out[cur] = m.group(3)
+        elif cur is not None:
+            out[cur] += "\n" + ln.strip()
+    return out
+
+
+def docstring_contract(fn):
+    """[(param, 'confirmed' | 'silent' | 'drift', text)] for the role-typed parameters of a function"""
+    res = []
+    ps = numpydoc_params(fn.docstring())
+    for p in fn.params:
+        if p not in _ORDERS or p not in ps:
+            continue
+        good, any_order = _ORDERS[p]
+        txt = ps[p]
+        if good.search(txt):
+            res.append((p, "confirmed", txt.splitlines()[0][:80]))
+        elif any_order.search(txt):
+            res.append((p, "drift", txt.splitlines()[0][:80]))
+        else:
+            res.append((p, "silent", txt.splitlines()[0][:80]))
+    return res
